@@ -559,7 +559,9 @@ def c04(payload):
                     bad.append('H deviates from curl A / mu0 of the solved currents: at %r by %.3g relative' % (
                         [round(float(x), 4) for x in c], np.abs(H - Href).max() / np.abs(Href).max()))
             # far zone: merges into the reported far field, transverse, E/H = 376.7
-            R = lam * rng.choice([60, 200, 1000])
+            # far enough that the offset of the antenna from the origin (the far field's reference point) is below 1 %
+            ext = float(np.abs(allp).max()) + maxseg
+            R = max(lam * rng.choice([60, 200, 1000]), 150 * ext)
             th = math.radians(rng.uniform(15, 75)); ph = math.radians(rng.uniform(0, 360))
             u = np.array([math.sin(th) * math.cos(ph), math.sin(th) * math.sin(ph), math.cos(th)])
             P = 10 ** rng.uniform(-1, 2)
@@ -568,7 +570,10 @@ def c04(payload):
             m.compute_far_field(Angle(math.degrees(th), 0, 1), Angle(math.degrees(ph), 0, 1), pwr=P, dist=R)
             ff = math.hypot(abs(m.far_field.e_theta[0][0]), abs(m.far_field.e_phi[0][0]))
             nE = np.linalg.norm(E); nH = np.linalg.norm(H)
-            if ff > 0 and abs(nE / ff - 1) > 0.03:
+            # the reported far field treats every half segment as a point element (C10 bounds that error for segments
+            # up to lambda/18); for long segments the near field, which integrates over the segments, is the better one
+            tolff = 0.03 + 0.5 * (math.pi * maxseg / lam) ** 2
+            if ff > 0 and abs(nE / ff - 1) > tolff:
                 bad.append('near field does not merge into the reported far field: at %.0f wavelengths |E| = %.6g V/m, far field %.6g V/m (ratio %.4f)' % (R / lam, nE, ff, nE / ff))
             if abs(nE / nH / 376.7 - 1) > 0.01:
                 bad.append('far-zone E/H is not 376.7 ohm: %.2f ohm at %.0f wavelengths' % (nE / nH, R / lam))
